@@ -456,8 +456,8 @@ Definition lowest_enabled (cfg : config) : option nat :=
 Definition all_finished (cfg : config) : bool :=
   forallb (fun th => match status th with TFinished => true | _ => false end) (ths cfg).
 
-(* one scheduler decision *)
-Definition sched_step (cfg : config) : option config :=
+(* one scheduler decision on thread ids *)
+Definition sched_step0 (cfg : config) : option config :=
   if dead cfg then None else
   let '(pick, rest) := next_from_schedule cfg (sched cfg) in
   let cfg1 := mkCfg (shs cfg) (ths cfg) rest (dead cfg) in
@@ -478,6 +478,44 @@ Definition sched_step (cfg : config) : option config :=
           if all_finished cfg1 then None
           else Some (mkCfg (sh_log (shs cfg1) (CDeadlock (length (ql (shs cfg1))) (cnc (shs cfg1)))) (ths cfg1) rest true)
       end
+  end.
+
+(* A wait may also end without a notification, at any moment: a timed wait times out (not only when nothing else can
+   run), and any wait may wake up spuriously (std::condition_variable allows it; the predicate loop re-evaluates).
+   Schedule tokens:  1000 + w  the timed wait of thread w times out now;  2000 + w  the wait of thread w wakes up spuriously.
+   A token that does not apply (no such thread, not parked, not timed) is skipped like any entry naming a thread that cannot run. *)
+Definition unnotified (cfg : config) (tok : nat) : option config :=
+  if Nat.leb 2000 tok then
+    let w := tok - 2000 in
+    match nth_error (ths cfg) w with
+    | Some wt => match status wt with
+                 | TParked _ => Some (mkCfg (shs cfg) (set_th (ths cfg) w (mkTh (code wt) (calls wt) (lo_to (lo wt) false) TWoken)) (sched cfg) (dead cfg))
+                 | _ => None
+                 end
+    | None => None
+    end
+  else if Nat.leb 1000 tok then
+    let w := tok - 1000 in
+    match nth_error (ths cfg) w with
+    | Some wt => match status wt with
+                 | TParked true => Some (mkCfg (sh_log (shs cfg) (CTimeout w))
+                                               (set_th (ths cfg) w (mkTh (code wt) (calls wt) (lo_to (lo wt) true) TWoken)) (sched cfg) (dead cfg))
+                 | _ => None
+                 end
+    | None => None
+    end
+  else None.
+
+(* one scheduler decision *)
+Definition sched_step (cfg : config) : option config :=
+  if dead cfg then None else
+  match sched cfg with
+  | tok :: rest =>
+      match unnotified (mkCfg (shs cfg) (ths cfg) rest (dead cfg)) tok with
+      | Some c => Some c
+      | None => sched_step0 cfg
+      end
+  | [] => sched_step0 cfg
   end.
 
 Fixpoint run_sched (fuel : nat) (cfg : config) : config :=
